@@ -185,7 +185,10 @@ func IsTransferFunc(f string) bool {
 // ---------------------------------------------------------------------------------------------
 // Input construction with sentinels
 
-const sentinel = 0xEE
+// Sentinel fills the spare capacity behind every argument and address (what lies behind a slice's
+// length is not part of the input: results must not depend on it).
+var Sentinel byte = 0xEE
+
 const spare = 8
 
 type builtInput struct {
@@ -209,7 +212,7 @@ func buildInput(c Call) *builtInput {
 	total += len(c.Caller) + len(c.Recipient) + 2*spare
 	backing := make([]byte, total)
 	for i := range backing {
-		backing[i] = sentinel
+		backing[i] = Sentinel
 	}
 	off := 0
 	place := func(b []byte) []byte {
